@@ -13,6 +13,11 @@ The variant of processing.py under test is a value (`Repairs`; the head is /repo
 the objects it does not match -- 423b86f's purge "by name" is reverted, finding C15-F9); two real operators
 on one simulated cluster are its regression. Stacked registrations (one function, one id, several
 reasons) are run in a closed loop on the real process_resource_event: calls per cause (/repo f7d6401).
+Since the white-box review (review/wb/C15/NOTES.md) every whole cycle is also judged by the ORACLE from its own reading
+of the object (body, stored last-handled state, configured finalizer name, documented handler ids): the on.event
+handlers invoked, the spawner's input and the change handlers invoked are those whose declared criteria hold; the
+harness's filter callbacks insist on the cause's kwargs. 'The field actually changed' follows /repo 8d1358b (JSON
+equality: true is not 1). The resource selector among the CLUSTER's resources is finding C15-F11 (`served_cases`).
 """
 from __future__ import annotations
 
@@ -78,6 +83,29 @@ LEVEL_TEXT = (
     "removals only), stealth_partial (weaker hypotheses -- on.event handlers and finalizer-free daemons may match: no "
     "framework write at all). The two-operator oracle reads the clause literally (no request at all for an object the "
     "operator never matched; finding C15-F9 is its regression: corpus/C15/F9.json must pass). "
+    "THE CLAUSE 'old/new transition criteria together with \"the field actually changed\"' is FULL since /repo 8d1358b "
+    "(finding C04-F12 seen from here): field_changed_iff (the code's decision -- identity with the absent marker on a side, "
+    "else bool(diffs.diff(old, new)) or old != new -- is exactly 'the two states of the field are not the same JSON value': a "
+    "boolean is never a number, another key order is no change; under the law PyLaw 'JSON equality refines Python ==', "
+    "proved for parsed JSON: pyEq_of_jsame), field_handler_change_gate, field_changed_of_before (nothing that was a change "
+    "stops being one), field_changed_bool_regression (1 -> true, false -> 0, [1] -> [true], {k: 0} -> {k: false} were no "
+    "changes for Python's `!=`: the handler of exactly that field was never selected). THE WHOLE CYCLE (model of "
+    "process_resource_event, every variant / object state / event type, by handler id): cycle_watch_exact / cycle_watch_iff "
+    "(the on.event handlers invoked are exactly those with a matching registration -- also for objects in deletion and "
+    "DELETED events), cycle_spawn_exact / cycle_spawn_iff (the daemons/timers handed to the spawner: those that match and "
+    "are not stopped for good; none for an object in deletion), cycle_handle_exact / cycle_handle_sound / "
+    "cycle_handle_complete (when the cycle handles: exactly cause_handlers; sound unguarded, complete while no resuming "
+    "handler has finished in the process). The Python oracle states the same on the REAL cycle, from its own reading of "
+    "the object (labels/annotations/fields of the body, the last-handled state it stored itself -- not kopf's cause): "
+    "on.event handlers on every event, spawner input, change handlers (soundness always; completeness when nothing is "
+    "carried, the cycle is not a finalizer cycle and the handler has no progress record), the values kopf's essence "
+    "gives the field criteria (also fields outside spec: get_extra_fields), the finalizer NAME (settings.persistence."
+    "finalizer configured in 1/3 of the cycles, kopf's default name then being a foreign finalizer), and the documented "
+    "handler ids (function name or id= + the field; one function for two fields is two handlers). "
+    "NEW OPEN FINDING C15-F11 (selector_served_gap_witness; corpus/C15/F11.json): the resource criterion of a handler is "
+    "Selector.check per resource; the priority of core v1 and the ambiguity rule of docs/resources.rst are applied only "
+    "when choosing what to WATCH (Selector.select): a handler declared for 'pods' also runs for pods.metrics.k8s.io objects "
+    "as soon as that resource is watched for a category / EVERYTHING / callable selector of another handler. "
     "ORACLE ONLY (closed loop on the real process_resource_event, no model): 'one function registered twice under the "
     "same id is invoked once' PER CAUSE for stacked decorators (@on.update + @on.delete, @on.create + @on.resume, ... on "
     "one function, one id): exactly one call for every cause the function is registered for, none for the others, never two "
@@ -85,15 +113,17 @@ LEVEL_TEXT = (
     "finished record is not inherited any more; reverting f7d6401 is caught by corpus/C15/s07) -- except OPEN FINDING C15-F10 "
     "(the residual f7d6401 names itself: the resuming registration first, restart in the middle of a handling, then "
     "deletion: the deletion handler is never called). "
-    "TIE/ORACLE ONLY: invoked = selected for on.event/daemon/timer/index handlers; `when=` and callbacks' kwargs (opaque "
-    "booleans); Selector notation parsing; _deduplicated's loop. 'Matched by no handler' is read as the code's prematch "
+    "TIE/ORACLE ONLY: invoked = selected for index handlers (C17's cycle); `when=` and the callbacks are opaque booleans "
+    "in the model (the harness's callbacks insist on the cause's kwargs: one called with none, or with another object's, "
+    "raises = an oracle failure); Selector notation parsing (oracle from the notation, incl. kubectl's name.version[.group]); "
+    "_deduplicated's loop. 'Matched by no handler' is read as the code's prematch "
     "(object-level criteria, ignoring old=/new=/'changed'); docs/filters.rst is inconsistent about a field handler on a "
     "non-existent field (lines 331-336 vs 83-85): the oracle follows 83-85 (value default = PRESENT). The model's boolean "
     "skeletons are regenerated from the AST and re-proved equal on every run; real match/prematch/get_handlers/"
     "_deduplicated/Selector.check/process_resource_event(+apply) are compared with the model on the criteria alphabet "
     "(thorough: the full product).")
 TIE = ("T (AST -> Lean for match/prematch/_matches_*/all four registry loops incl. ChangingRegistry's gate chain, "
-       "Selector.check, the blind gate and whether it purges (423b86f: a known shape, reverted by ad4ec08 -- blind_purge_eq wants `false`), the finalizer decision / carried-patch exit and what "
+       "how 'the field actually changed' is decided (the local `changed` of /repo 8d1358b: changed_eq), Selector.check, the blind gate and whether it purges (423b86f: a known shape, reverted by ad4ec08 -- blind_purge_eq wants `false`), the finalizer decision / carried-patch exit and what "
        "it returns (the if-chain of 30557a0 + 02af7ce) / resumed-handlers filter of processing.process_resource_causes, "
        "whether process_resource_event forgets a fulfilled carried patch (608a57d: not any more) and apply's touch "
        "decision, re-proved equal to the model; the recognised variant of processing.py is a value (Extracted.repairs) whose "
@@ -117,25 +147,27 @@ STRENGTH = "partial"   # see LEVEL_TEXT: several clauses hold only under named g
 THEOREMS = [("Kopf.Props.C15", "Kopf.C15." + n) for n in (
     "match_eq_doc_partial", "match_eq_doc_update_partial", "match_eq_doc_nonchanging_partial", "match_eq_doc_creation_partial",
     "creation_old_state_ignored", "creation_value_current_only", "create_absent_regression",
+    "field_changed_iff", "field_handler_change_gate", "field_changed_of_before", "field_changed_bool_regression",
     "doc_gap_old_only_witness", "callback_none_regression", "doc_gap_token_literal_witness",
     "matchesMetadata_iff", "matchesLabels_iff", "dedup_nodup", "dedup_first_kept", "dedup_sublist", "dedup_ids_same",
     "dedup_function_once", "bound_method_once_regression",
     "selected_iff", "selected_sound",
     "gate_iff", "selected_on_deletion_iff", "subhandler_gate", "subhandler_selected_iff", "subhandlers_selected_iff",
     "subhandler_deletion_regression",
-    "selector_check_iff_partial", "resource_criterion_doc_partial", "selector_gap_events_k8s_witness",
+    "selector_check_iff_partial", "resource_criterion_doc_partial", "selector_gap_events_k8s_witness", "selector_served_gap_witness",
     "stealth_exact_at", "stealth_exact_blind", "stealth_exact", "blind_never_purges", "stealth_records_ignored", "purgeIds_iff",
     "stealth_removals_only_partial", "stealth_finalizer_only_partial", "stealth_total_partial",
     "stealth_partial", "carried_fulfilled_sends_nothing", "deadline_writes_nothing", "stealth_carried_witness",
     "stealth_blocked_witness", "stealth_touch_witness", "stealth_purge_by_name_witness", "carried_fulfilled_regression",
     "stealth_leftover_regression",
+    "cycle_watch_exact", "cycle_watch_iff", "cycle_spawn_exact", "cycle_spawn_iff", "cycle_handle_exact",
 )] + [("Kopf.Props.C15_Invoked", "Kopf.C15." + n) for n in (
     "invoked_sound", "invoked_doc_partial", "unmatched_never_invoked", "matching_due_invoked", "matching_invoked_fresh",
-    "subhandler_matching_invoked_fresh",
+    "subhandler_matching_invoked_fresh", "cycle_handle_sound", "cycle_handle_complete",
 )]
 TIE_THEOREMS = [("Kopf.Tie.C15", "Kopf.C15.Tie." + n) for n in (
     "match_eq", "prematch_eq", "resource_eq", "subresource_eq", "subresource_nonwebhook", "when_eq", "labels_eq",
-    "annotations_eq", "metadata_step_eq", "field_values_eq", "current_only_eq", "values_eq", "change_eq", "old_side_eq", "new_side_eq",
+    "annotations_eq", "metadata_step_eq", "field_values_eq", "current_only_eq", "values_eq", "change_eq", "changed_eq", "old_side_eq", "new_side_eq",
     "sides_src_eq", "field_changes_eq", "iter_plain_eq", "requires_finalizer_eq", "dedup_key_eq", "blind_eq", "blind_purge_eq", "repairs_known",
     "finalizer_decision_eq", "release_eq", "early_exit_eq", "waiting_eq", "forget_eq", "iter_changing_eq", "resumed_filter_eq",
     "apply_touch_eq",
@@ -147,9 +179,13 @@ RULE = ("handler declaration = labels x annotations criterion in {none, 'x', 'y'
         "label x annotation x field for watching causes; plus extended sweeps (null values, callbacks is-None/truthy/not-None, "
         "the private token, empty strings), the complete product value x old x new x field_needs_change over criteria "
         "including the falsy-but-meaningful literals '', 0, False, [], {} against old x new over the same falsy-but-present "
-        "values (and '' label/annotation values and criteria, labels={}), in both tiers; cross-class pairs, "
-        "random larger label maps, registries with duplicate registrations through kopf.on.*, every selector notation of "
-        "docs/resources.rst x a pool of 10 resources (preferred/non-preferred versions, core and events.k8s.io events, "
+        "values (and '' label/annotation values and criteria, labels={}) -- complete in the thorough tier; quick: every "
+        "declaration with at most one of value=/old=/new= + a seeded sample of the rest; old x new over values Python's == "
+        "equates and JSON does not (true/1, false/0, alone, inside lists and mappings; the same value in another key order; "
+        "1.0/1: oracle only), complete in both tiers; cross-class pairs, "
+        "random larger label maps, registries with duplicate registrations through kopf.on.* (20%: one function for two "
+        "fields through two decorators, the ids left to kopf), every selector notation of "
+        "docs/resources.rst (incl. kubectl's name.version[.group]) x a pool of 10 resources (preferred/non-preferred versions, core and events.k8s.io events, "
         "missing kind/singular), the complete grid handler kind (on.create/update/delete/resume/field through kopf.on.*) x "
         "value= in {none, ABSENT, PRESENT, 'x', callbacks} x every cause shape detect_changing_cause builds over the field "
         "alphabet (creation = no old state; update old != new, also first-seen; deletion with no / equal / differing old "
@@ -157,7 +193,8 @@ RULE = ("handler declaration = labels x annotations criterion in {none, 'x', 'y'
         "still changes the object / that is fulfilled already; preset resumed_handlers, temporarily failing handlers, fields under "
         "spec/metadata/status; 35% with progress records on the object: of 1-3 registered handlers, of their sub-handlers named "
         "in `subrefs` or orphaned, of somebody else, in annotations / status.kopf.progress / both; 20% with a consistency "
-        "deadline that is over) and 3-6-event sequences with real "
+        "deadline that is over; 1/3 with a configured settings.persistence.finalizer, kopf's default name then among the "
+        "foreign finalizers; 6% with an old/new pair only JSON tells apart) and 3-6-event sequences with real "
         "daemons (obeying / ignoring `stopped`) where the label comes and goes and the finalizer follows kopf's own edits; "
         "the complete grid of the blind branch (4 handler kinds filtered out by label/when/annotation x 5 record sets x own "
         "finalizer x event type incl. DELETED x carried modes, and the same object matching); sequences in which a handler "
@@ -183,8 +220,11 @@ TRUSTED = ["pyextract atom vocabularies for registries.match/prematch/_matches_*
            "finalizer decision / carried-patch exit of processing.process_resource_causes",
            "the harness's reading of a cause (labels, annotations, old/new/body), of a handler declaration and of a parsed "
            "Selector's fields into the model's records; webhook sub-resources are passed in as a boolean (C18's subject)",
-           "`when=` and the kwargs of value callbacks are opaque: `when` is a boolean per (handler, cause), callbacks are pure "
-           "boolean functions of the value; callbacks that raise or depend on kwargs are outside the model",
+           "`when=` and the callbacks are opaque in the MODEL: `when` is a boolean per (handler, cause), callbacks are pure "
+           "boolean functions of the value; on the real code the harness's callbacks check that they are given the kwargs "
+           "of the cause at hand (body/meta/spec/status/labels/annotations/patch/logger/memo/... of one object) and raise "
+           "otherwise (a raise inside match()/get_handlers()/the cycle is an oracle failure); callbacks whose VERDICT "
+           "depends on kwargs are outside the model",
            "C02's theorems invoked_selected_awake and due_invoked_all_at_once (Kopf.Props.C02) are used as stated there by "
            "Kopf.Props.C15_Invoked (while C02's files are being edited that one module may fail to build)",
            "Obj.lingering / Obj.handlerDelays / Obj.carried / Obj.carriedOps / Obj.resumed / Obj.records are inputs of the cycle "
@@ -193,10 +233,12 @@ TRUSTED = ["pyextract atom vocabularies for registries.match/prematch/_matches_*
            "cycles are C09's, the patch content of process_changing_cause (incl. its purges: NOOP/FREE, /repo 40d09eb) is "
            "C02's/C03's; State.purge / ProgressStorage.purge are not translated: `purgeIds` (the purge of the 423b86f variants; the "
            "code as it is has none) is tied to them by D only, on trees that have the purge"]
-ASSUMPTIONS = ["values are JSON (strings, integers, booleans, null, lists, objects; no floats). Python's bool/int coercion under == "
-               "(True == 1, False == 0) is modelled explicitly on the Lean side (J.pyEq) and compared with the real code by the "
-               "tie, but it is kept out of the judged set: the oracle leaves a case undefined when its documented verdict "
-               "(plain or under a named deviation) differs between Python == and type-strict JSON equality",
+ASSUMPTIONS = ["values are JSON (strings, integers, booleans, null, lists, objects; no floats in the model: 1.0/1 twins are run "
+               "against the oracle only). Python's bool/int coercion under == (True == 1, False == 0) is modelled explicitly on "
+               "the Lean side (J.pyEq) and compared with the real code by the tie; for LITERAL criteria (value=/old=/new= "
+               "against a value) it is kept out of the judged set: the oracle leaves a case undefined when its documented "
+               "verdict (plain or under a named deviation) differs between Python == and JSON equality. 'The field actually "
+               "changed' is judged as JSON values always (true is not 1; 1.0 is 1; key order is nothing): /repo 8d1358b",
                "a criterion is 'given' iff it `is not None` (model: VCrit.unset only for None; oracle: `is None` tests): "
                "'', 0, False, [], {} are ordinary literals",
                "the reason/initial/deleted gate of ChangingRegistry.iter_handlers reads C05's records of the handler kind and the "
@@ -209,8 +251,12 @@ ASSUMPTIONS = ["values are JSON (strings, integers, booleans, null, lists, objec
                "detect_changing_cause can build (a deletion mark only with DELETE/FREE/GONE)",
                "'selected' vs 'invoked': both directions are proved for the changing registry under all_at_once (a due matching "
                "handler is invoked; an invoked handler matches); one-by-one/asap planning, sleeping and finished handlers are "
-               "C02's/C03's; statements are id-level (two functions under one id are not told apart); for on.event / daemons / "
-               "timers / indexes 'invoked = selected' is observed by the cycle tie only",
+               "C02's/C03's; statements are id-level (two functions under one id are not told apart); for on.event handlers and the "
+               "spawner's input 'invoked = those whose criteria hold' is proved on the cycle model (cycle_watch_iff / "
+               "cycle_spawn_iff) and stated by the oracle on every real cycle; for change handlers the cycle oracle states "
+               "soundness on every cycle and completeness when nothing is carried, the cycle is not given to a finalizer edit "
+               "and the handler has no progress record on the object (started handlers: C02's); index handlers are not in "
+               "the cycles (C17's)",
                "stealth is proved over the model's Effect enumeration of process_resource_event/process_resource_causes + "
                "application.apply with consistency pre-proven (consistency_time is None) or a deadline that is over already "
                "(both: consistency_is_achieved before the patch is looked at; a deadline in the FUTURE -- the sleep, the exit "
@@ -229,8 +275,14 @@ ASSUMPTIONS = ["values are JSON (strings, integers, booleans, null, lists, objec
                "the whole-operator simulation (harness/sim) in child processes: 2 deployments of one registry shape, 1-3 "
                "objects, 2-8 virtual seconds",
                "Selector.__post_init__ (positional notation -> fields) is not modelled: the oracle reads the notation, the model "
-               "reads the parsed fields, the tie compares both with the real check(); 'name.version.group' notations and the "
-               "ambiguity resolution of Selector.select are not generated"]
+               "reads the parsed fields, the tie compares both with the real check(); kubectl's `name.version[.group]` notations are "
+               "generated (`name.v1` without a group is judged only where 'the core group' and 'any group' agree: the docs give "
+               "one example, 'pods.v1'); the ambiguity resolution of Selector.select (which resources are SERVED) is C19's",
+               "the cycle oracle reads the object itself: labels/annotations/fields of the event's body, the last-handled state "
+               "as the harness stored it; the values kopf's essence gives the field criteria must be those (handlers' fields "
+               "outside spec are part of the essence: get_extra_fields); the finalizer is settings.persistence.finalizer as "
+               "configured; handler ids are the documented ones (function name or id=, plus the field for kopf.on.* except "
+               "on.index; a sub-handler's under its parent's, without the field)"]
 
 # C15-F1, the RESIDUAL after /repo bd6cd41: only causes WITH an old state (`cause.old is not None`). A creation
 # (no old state) selected by "absent in the non-existent old state" is NOT covered: it is a plain VIOLATION again.
@@ -309,7 +361,16 @@ FV_VOCAB = _vocab({
 })
 CHANGE_VOCAB = _vocab({
     "handler.field_needs_change": "a.needsChange",
-    "old != new": "a.changed",
+    "changed": "a.changed",
+})
+# /repo 8d1358b: `changed = (old is not new) if (old is absent or new is absent) else bool(diffs.diff(old, new)) or old != new`
+CHANGED_VOCAB = _vocab({
+    "old is absent": "a.oldAbsent",
+    "new is absent": "a.newAbsent",
+    "old is not new": "(!a.identical)",
+    "old is new": "a.identical",
+    "bool(diffs.diff(old, new))": "a.diffNonEmpty",
+    "old != new": "a.pyNe",
 })
 
 
@@ -706,6 +767,12 @@ def extract(ctx: Ctx) -> None:
             rest.append(st)
     if set(srcs) != {"old", "new"}:
         raise ExtractError("_matches_field_changes: expected exactly `old`/`new` resolved from the cause")
+    # "the field actually changed": the local `changed` (/repo 8d1358b), translated on its own
+    chg = [st for st in rest if isinstance(st, ast.Assign) and len(st.targets) == 1 and pyextract.norm(st.targets[0]) == "changed"]
+    if len(chg) != 1:
+        raise ExtractError("_matches_field_changes: expected exactly one assignment of `changed` (how 'the field actually changed' is decided)")
+    rest = [st for st in rest if st is not chg[0]]
+    emit("changedCore", "ChangedAtoms", pyextract.BoolTranslator(CHANGED_VOCAB).tr(chg[0].value))
     if not rest or not isinstance(rest[-1], ast.Return) or not isinstance(rest[-1].value, ast.BoolOp) \
             or not isinstance(rest[-1].value.op, ast.And) or len(rest[-1].value.values) != 3:
         raise ExtractError("_matches_field_changes: the result is no longer a conjunction of three parts")
@@ -965,12 +1032,39 @@ FIELD_CBS: dict[str, Callable[..., bool]] = {
 }
 
 
-def when_true(**_: Any) -> bool:
+def cause_kwargs(kw: dict) -> None:
+    """what kopf hands to a filter callback besides the value: the kwargs of the CAUSE at hand (docs/kwargs.rst: body,
+    meta, spec, status, labels, annotations, patch, logger, memo, ... of one and the same object). The callbacks of
+    this harness insist on them -- a callback called with none, or with another object's, raises (a raise inside
+    match() is an oracle failure: the declared criterion could not even be asked)."""
+    body = kw["body"]
+    for k in ("meta", "spec", "status", "patch", "logger", "memo", "resource", "name", "namespace", "uid"):
+        kw[k]
+    md = body.get("metadata", {})
+    if dict(kw["labels"]) != dict(md.get("labels", {})) or dict(kw["annotations"]) != dict(md.get("annotations", {})):
+        raise RuntimeError("the callback's labels/annotations kwargs are not those of the body it is given")
+
+
+def _kw(fn: Callable[[Any], bool]) -> Callable[..., bool]:
+    """the callback kopf gets: the pure verdict on the value (what the oracle asks), after checking the kwargs"""
+    def cb(v: Any, **kw: Any) -> bool:
+        cause_kwargs(kw)
+        return fn(v)
+    return cb
+
+
+def when_true(**kw: Any) -> bool:
+    cause_kwargs(kw)
     return True
 
 
-def when_false(**_: Any) -> bool:
+def when_false(**kw: Any) -> bool:
+    cause_kwargs(kw)
     return False
+
+
+META_CBS_KW = {k: _kw(f) for k, f in META_CBS.items()}       # (one object per name: what is registered with kopf)
+FIELD_CBS_KW = {k: _kw(f) for k, f in FIELD_CBS.items()}
 
 
 def hspec(cls: str = "changing", *, fn: int = 0, id: str = "h", sel: str | None = PLURAL, l: Any = None, a: Any = None,
@@ -1119,9 +1213,11 @@ def doc_resolve(d: Any, path: list[str]) -> Any:
 
 
 def strict_eq(a: Any, b: Any) -> bool:
-    """JSON equality without Python's bool/int coercion (True != 1, False != 0), recursively"""
+    """equality as JSON values: no bool/int coercion (True != 1, False != 0), one kind of numbers (1.0 is 1), recursively"""
     if isinstance(a, bool) or isinstance(b, bool):
         return isinstance(a, bool) and isinstance(b, bool) and a == b
+    if isinstance(a, (int, float)) and isinstance(b, (int, float)):
+        return a == b
     if isinstance(a, list) and isinstance(b, list):
         return len(a) == len(b) and all(strict_eq(x, y) for x, y in zip(a, b))
     if isinstance(a, dict) and isinstance(b, dict):
@@ -1163,7 +1259,7 @@ def doc_parts(h: dict, st: dict, dev: frozenset = frozenset()) -> dict | None:
 
 
 def _has_boolnum(x: Any) -> bool:
-    if isinstance(x, (bool, int)):
+    if isinstance(x, (bool, int, float)):
         return True
     if isinstance(x, list):
         return any(_has_boolnum(y) for y in x)
@@ -1217,8 +1313,10 @@ def doc_parts_eq(h: dict, st: dict, dev: frozenset, eq: Callable[[Any, Any], boo
             if update_like:
                 # "The value= filter applies to either the old or the new value"
                 parts["value"] = chk(vcrit, old) or chk(vcrit, new)
-                # "restricts the update handlers to cases where the field is affected in any way"
-                affected = not ((old is MISSING and new is MISSING) or (old is not MISSING and new is not MISSING and eq(old, new)))
+                # "restricts the update handlers to cases where the field is affected in any way: changed, added, or
+                # removed" -- the property's "the field actually changed": as JSON VALUES (true is not 1), whatever
+                # `eq` the literal criteria are read with (/repo 8d1358b; before it Python's `!=` decided)
+                affected = not ((old is MISSING and new is MISSING) or (old is not MISSING and new is not MISSING and strict_eq(old, new)))
                 parts["change"] = (affected and (h["o"] is None or chk(h["o"], old)) and (h["n"] is None or chk(h["n"], new)))
             else:
                 # "check the resource in its current ---and only--- state": the criterion holds iff it
@@ -1348,7 +1446,7 @@ class Env:
         if c == "A":
             return self.filters.ABSENT
         if isinstance(c, dict) and "cb" in c:
-            return META_CBS[c["cb"]]
+            return META_CBS_KW[c["cb"]]
         if isinstance(c, dict) and "v" in c:
             return c["v"]
         raise ValueError(c)
@@ -1361,7 +1459,7 @@ class Env:
         if c in ("P", "A"):
             return self.mcrit(c)
         if isinstance(c, dict) and "cb" in c:
-            return FIELD_CBS[c["cb"]]
+            return FIELD_CBS_KW[c["cb"]]
         if isinstance(c, dict) and "v" in c:
             return c["v"]
         raise ValueError(c)
@@ -1644,6 +1742,35 @@ def falsy_cases() -> list[tuple[str, list[dict], list[dict]]]:
     return out
 
 
+TWINS: list = [(1, True), (True, 1), (0, False), (False, 0), ([1], [True]), ([0, "x"], [False, "x"]),
+               ({"k": 0}, {"k": False}), ({"a": 1, "b": [True]}, {"b": [True], "a": 1})]   # (the last pair: the SAME value, other key order)
+
+
+def boolnum_cases() -> list[tuple[str, list[dict], list[dict], bool]]:
+    """'the field actually changed' over values that Python's `==` equates and JSON does not (/repo 8d1358b, finding
+    C04-F12): true/1, false/0, alone, inside lists and inside mappings, and values that are the same JSON value
+    written differently (1.0/1, another key order), as old x new states of the field; update handlers (`@on.update`,
+    `@on.field`: field_needs_change) and the others, without criteria, with PRESENT/ABSENT/callbacks (judged) and
+    with literals (tied; judged where the coercion does not decide). → (what, handlers, states, with the model?)"""
+    vals: list = [MISSING, "x", 1, True, 0, False, [1], [True], [0, "x"], [False, "x"], {"k": 0}, {"k": False},
+                  {"a": 1, "b": [True]}, {"b": [True], "a": 1}, [[1]], [[True]]]
+    sp = lambda v: {} if v is MISSING else {"f": v}
+
+    def sts_of(vs: list) -> list[dict]:
+        return [state("changing", body_extra={"spec": sp(nv)}, old={"spec": sp(ov)}, new={"spec": sp(nv)}, reason="update")
+                for ov, nv in itertools.product(vs, vs)]
+    crits: list = [None, "P", "A", {"cb": "truthy"}, {"cb": "not_none"}]
+    hs = [hspec("changing", f=FIELD, fnc=True)] + \
+         [hspec("changing", f=FIELD, v=v, fnc=fnc) for v in crits[1:] for fnc in (False, True)] + \
+         [hspec("changing", f=FIELD, o=o, n=n, fnc=True) for o, n in itertools.product(crits, crits) if o is not None or n is not None] + \
+         [hspec("changing", f=FIELD, o={"v": o}, n={"v": n}, fnc=True) for o, n in TWINS[:4]] + \
+         [hspec("changing", f=FIELD, v={"v": v}, fnc=fnc) for v in (1, True, 0, False) for fnc in (False, True)]
+    fvals: list = [1, 1.0, True, 0, 0.0, False, [1], [1.0], {"k": 1.0}, {"k": 1}, MISSING]
+    fhs = [h for h in hs if not any(isinstance(h[k], dict) and "v" in h[k] for k in ("v", "o", "n"))]
+    return [("bool/number twins as old x new", hs, sts_of(vals), True),
+            ("1.0/1 twins as old x new (no floats in the model: oracle only)", fhs, sts_of(fvals), False)]
+
+
 def ext_field_states() -> list[dict]:
     """old/new over {absent, 'x', 'y', null(present)} + old=None, and a non-mapping parent"""
     vals = [("absent", MISSING), ("x", "x"), ("y", "y"), ("null", None)]
@@ -1818,7 +1945,13 @@ def run_select_case(env: Env, rec: Rec, case: dict, driver_reqs: list, pending: 
     st = case["state"]
     cause = env.cause(st)
     excluded = frozenset(case["excluded"])
-    got = sub.get_handlers(cause=cause, excluded=excluded)
+    try:
+        got = sub.get_handlers(cause=cause, excluded=excluded)
+    except Exception as e:     # a criterion that cannot even be asked (e.g. a callback called without the cause's kwargs)
+        rec.evaluations += 1
+        rec.oracle_fail(f"get_handlers() raised {type(e).__name__}: {e}", {"kind": "select", "case": case},
+                        {"site": f"{cls} registry get_handlers", "shape": f"raises {type(e).__name__}"})
+        return
     pos = {id(x): i for i, x in enumerate(sub._handlers)}
     got_idx = [pos[id(x)] for x in got]
     got_keys = [(hs[i]["func"], hs[i]["id"]) for i in got_idx]     # the FUNCTION and the id (the property's clause)
@@ -1864,14 +1997,18 @@ def run_select_case(env: Env, rec: Rec, case: dict, driver_reqs: list, pending: 
     driver_reqs.append(["C15.select", "changing" if cls == "changing" else "plain", [lean_h(h) for h in hs], lean_c(st), sorted(excluded)])
     pending.append(("get_handlers positions", got_idx, replay))
     # requires_finalizer / prematch of the registry
-    if cls in ("changing", "spawning"):
-        rf = bool(sub.requires_finalizer(cause=cause, excluded=excluded) if cls == "spawning" else sub.requires_finalizer(cause=cause))
-        driver_reqs.append(["C15.reqfin", cls, [lean_h(h) for h in hs], lean_c(st), sorted(excluded) if cls == "spawning" else []])
-        pending.append((f"{cls} requires_finalizer", rf, replay))
-    if cls == "changing":
-        pm = bool(sub.prematch(cause=cause))
-        driver_reqs.append(["C15.prematchAny", [lean_h(h) for h in hs], lean_c(st)])
-        pending.append(("ChangingRegistry.prematch", pm, replay))
+    try:
+        if cls in ("changing", "spawning"):
+            rf = bool(sub.requires_finalizer(cause=cause, excluded=excluded) if cls == "spawning" else sub.requires_finalizer(cause=cause))
+            driver_reqs.append(["C15.reqfin", cls, [lean_h(h) for h in hs], lean_c(st), sorted(excluded) if cls == "spawning" else []])
+            pending.append((f"{cls} requires_finalizer", rf, replay))
+        if cls == "changing":
+            pm = bool(sub.prematch(cause=cause))
+            driver_reqs.append(["C15.prematchAny", [lean_h(h) for h in hs], lean_c(st)])
+            pending.append(("ChangingRegistry.prematch", pm, replay))
+    except Exception as e:
+        rec.oracle_fail(f"requires_finalizer()/prematch() raised {type(e).__name__}: {e}", replay,
+                        {"site": f"{cls} registry requires_finalizer/prematch", "shape": f"raises {type(e).__name__}"})
 
 
 def random_select_case(rng: random.Random) -> dict:
@@ -1932,6 +2069,8 @@ def random_select_case(rng: random.Random) -> dict:
                 ov = rng.choice([v for v in VALS + FALSY[:3] if v != nv]) if ov == NOOLD or ov == nv else ov
             elif reason == "delete" and rng.random() < 0.7:
                 ov = rng.choice([v for v in VALS + FALSY[:3] if v != nv]) if ov == NOOLD or ov == nv else ov
+        if reason == "update" and rng.random() < 0.1:      # old/new that Python equates and JSON does not (/repo 8d1358b)
+            ov, nv = rng.choice(TWINS[:7])
         if twin and reason in ("resume", "noop"):
             og = ng
         st = state(cls, labels={} if lv is None else {LK: lv}, annotations={} if av is None else {AK: av},
@@ -2127,7 +2266,9 @@ def judge_subs(env: Env, rec: Rec, *, parent_kind: str, via: str, subs: list[dic
         h = dict(sp, id=str(real.id))
         if parent_id is not None:      # the documented id: under the parent's, the function's name unless id= is given, plus the field
             fn_ = env.sub_temp if sp.get("_behave") == "temp" else env.subfns[sp["fn"] % len(env.subfns)]
-            h["id"] = doc_id(env, dict(sp, id=sp["_id"]), sp["_id"] is not None and via != "execute-list", prefix=parent_id, fn=fn_)
+            # (no field in a sub-handler's id: the docs promise it for the kopf.on.* decorators only, and two registrations
+            # of one function under one id in one parent are "registered twice under the same id": invoked once)
+            h["id"] = doc_id(env, dict(sp, id=sp["_id"], f=None), sp["_id"] is not None and via != "execute-list", prefix=parent_id, fn=fn_)
             rec.compare(f"sub-handler via {via} in on.{parent_kind} → handler id", str(real.id), h["id"], {"input": replay})
         check_decorated(env, rec, real, h, f"sub-handler via {via} in on.{parent_kind}")
         if real.selector is not None:
@@ -2212,8 +2353,12 @@ async def run_subselect_case(env: Env, rec: Rec, case: dict, reqs: list, pending
     replay = {"kind": "subselect", "case": case}
     out = outcomes.get(parent.id)
     temp = any(sp.get("_behave") == "temp" for sp in subs)
-    if out is None or (out.exception is not None and not temp):
-        raise RuntimeError(f"harness: the parent handler did not run cleanly: {out!r}")
+    if out is not None and out.exception is not None and not temp:
+        rec.oracle_fail(f"selecting or running the sub-handlers raised {type(out.exception).__name__}: {out.exception}", replay,
+                        {"site": FINDING_SUB_SITE, "shape": f"raises {type(out.exception).__name__}"})
+        return
+    if out is None:
+        raise RuntimeError(f"harness: the parent handler did not run: {out!r}")
     pv = doc_match(ph, st)
     judged = bool(pv) and doc_gate(ph, st) and cause_constructible(st)
     seen = split_subtrace(env.subtrace).get("p")
@@ -2476,6 +2621,79 @@ def run_selectors(env: Env, rec: Rec, reqs: list, pending: list) -> None:
 
 
 # =============================================================================================
+# the resource selector among the cluster's resources: docs/resources.rst, "Ambiguous resource selectors" -- a
+# specification that names a resource and matches resources of 2+ API groups serves none of them, except that core
+# v1 has priority ("just "pods" can be specified and the intention will be understood"). The code applies that when it
+# chooses what to WATCH (Selector.select, C19's subject); handlers are selected per resource by Selector.check alone:
+# when the other resource is watched anyway (for a category / EVERYTHING / callable selector of another handler), the
+# handler declared for "pods" also runs for pods.metrics.k8s.io (finding C15-F11)
+# =============================================================================================
+FINDING_SERVED = {"site": "registries._matches_resource", "shape": "a handler runs for a resource that its selector does not select among the cluster's resources",
+                  "what": "core-v1 priority / the ambiguity rule is applied to what is watched (Selector.select), not to which handlers run (Selector.check)"}
+SERVED_DECLS: list = [{"args": ["pods"], "kw": {}}, {"args": ["v1", "pods"], "kw": {}}, {"args": ["pods.metrics.k8s.io"], "kw": {}},
+                      {"args": ["kopfexamples"], "kw": {}}, {"args": ["kopfexamples.kopf.dev"], "kw": {}},
+                      {"args": [], "kw": {"kind": "KopfExample"}}, {"args": [], "kw": {"category": "all"}},
+                      {"args": [EVERYTHING], "kw": {}}, {"args": [{"fn": "true"}], "kw": {}}]
+SERVED_CLUSTERS: list = [[3, 8], [0, 2], [0], [3], [0, 1, 2, 3, 4, 8], [2, 8]]      # indices into SEL_RESOURCES
+
+
+def names_a_resource(decl: dict) -> bool:
+    """'resource specifications that are intended to match a specific resource by name' (vs. categories, EVERYTHING, callables)"""
+    a = decl["args"]
+    return bool(a and isinstance(a[-1], str) and a[-1] != EVERYTHING) or any(k in decl["kw"] for k in ("kind", "plural", "singular", "shortcut"))
+
+
+def doc_select(decl: dict, cluster: list[dict]) -> list[dict]:
+    """which of the cluster's resources the specification stands for (docs/resources.rst)"""
+    matched = [r for r in cluster if doc_selector(decl, r)]
+    if names_a_resource(decl):
+        groups = {r["group"] for r in matched}
+        if "" in groups:
+            matched = [r for r in matched if r["group"] == ""]      # "v1 resources have priority over all other resources"
+        elif len(groups) > 1:
+            matched = []                                             # "neither of them will be served"
+    return matched
+
+
+def run_served_case(env: Env, rec: Rec, case: dict) -> None:
+    """one registry of on.event handlers (one per selector notation), one cluster; for every resource that is watched
+    (some specification stands for it): the handlers get_handlers() returns vs. the specifications that stand for it"""
+    R = env.references
+    cluster = [SEL_RESOURCES[i] for i in case["cluster"]]
+    real = {i: R.Resource(group=r["group"], version=r["version"], plural=r["plural"], kind=r["kind"], singular=r["singular"],
+                          shortcuts=frozenset(r["shortcuts"]), categories=frozenset(r["categories"]), preferred=r["preferred"])
+            for i, r in zip(case["cluster"], cluster)}
+    registry = env.registries.OperatorRegistry()
+    for n_, decl in enumerate(case["decls"]):
+        args = [R.EVERYTHING if a == EVERYTHING else (SEL_CALLABLES[a["fn"]] if isinstance(a, dict) else a) for a in decl["args"]]
+        env.kopf.on.event(*args, **decl["kw"], registry=registry, id=f"h{n_}")(env.fns[n_ % len(env.fns)])
+    stands = [doc_select(d, cluster) for d in case["decls"]]
+    for i, r in zip(case["cluster"], cluster):
+        if not any(r in s_ for s_ in stands):
+            continue                                       # nobody's resource: not watched
+        cause = env.causes.WatchingCause(resource=real[i], indices=env.indexers.indices, logger=env.logger, patch=env.patches.Patch(),
+                                         body=env.bodies.Body({"metadata": {"name": "o", "namespace": "ns"}}), memo=None,
+                                         type="ADDED", event={"type": "ADDED", "object": {}})
+        got = sorted(str(h.id) for h in registry._watching.get_handlers(cause=cause))
+        want = sorted(f"h{n_}" for n_, s_ in enumerate(stands) if r in s_)
+        per_resource = sorted(f"h{n_}" for n_, d in enumerate(case["decls"]) if doc_selector(d, r))
+        rec.evaluations += 1
+        rec.count("served: handlers of a watched resource", "as the specifications stand for it" if got == want else "MORE (selected per resource)")
+        rec.nontrivial.add(f"served|{case['cluster']}|{i}|{got == want}")
+        if got != want:
+            rec.oracle_fail(f"handlers selected for a {r['group']}/{r['version']}/{r['plural']} object: {got}; among the cluster's resources "
+                            f"{[x['group'] + '/' + x['plural'] for x in cluster]} the specifications of {want} stand for it "
+                            f"({[case['decls'][int(x[1:])] for x in got if x not in want]} do not)",
+                            {"kind": "served", "case": case, "resource": i, "impl": got},
+                            FINDING_SERVED if got == per_resource else
+                            {"site": "watching registry get_handlers", "shape": "selected set differs from the handlers whose selector stands for the resource"})
+
+
+def served_cases() -> list[dict]:
+    return [{"decls": SERVED_DECLS, "cluster": c} for c in SERVED_CLUSTERS]
+
+
+# =============================================================================================
 # (D) whole cycles: real process_resource_event, writes observed; the stealth clause
 # =============================================================================================
 def carried_user_fn(body: Any) -> None:
@@ -2656,6 +2874,8 @@ def random_cycle_case(rng: random.Random) -> dict:
     nv, ov = rng.choice(VALS + FALSY), rng.choice(VALS + [NOOLD, NOOLD] + FALSY)
     if rng.random() < 0.25:
         ov = "SAME"                  # nothing changed since the last-handled state: no-op / resuming causes
+    elif rng.random() < 0.06:        # a change only JSON sees (true/1, false/0, also inside lists and mappings: /repo 8d1358b)
+        ov, nv = rng.choice(TWINS[:7])
     resumed = [h["id"] for h, kind in hs if kind == "resume" and rng.random() < 0.4]
     return {"handlers": hs, "label": lv, "annotation": av, "field": nv, "stored": ov,
             "event": rng.choice(["ADDED", "MODIFIED", "MODIFIED", None, None, "DELETED"]),
@@ -2955,14 +3175,23 @@ async def _one_cycle(env: Env, rec: Rec, case: dict, k: int, step: dict, own_fin
     pre_resumed = sorted(known[0].resumed_handlers) if known else []
     pre_stopped = sorted(str(x) for x in known[0].daemons_memory.forever_stopped) if known else []
     import warnings
+    raised: Exception | None = None
     with SubSpy(env, registry._changing), warnings.catch_warnings():
         warnings.simplefilter("ignore")
-        await P.process_resource_event(
-            lifecycle=env.lifecycles.all_at_once, indexers=env.indexing.OperatorIndexers(), registry=registry, settings=settings,
-            memories=memories, memobase=memobase, resource=env.resource,
-            raw_event={"type": step["event"], "object": body}, event_queue=asyncio.Queue(), no_throttling=True,
-            # a consistency deadline that is over already (else: pre-proven consistency)
-            consistency_time=(asyncio.get_running_loop().time() - 1.0) if step.get("timed") else None)
+        try:
+            await P.process_resource_event(
+                lifecycle=env.lifecycles.all_at_once, indexers=env.indexing.OperatorIndexers(), registry=registry, settings=settings,
+                memories=memories, memobase=memobase, resource=env.resource,
+                raw_event={"type": step["event"], "object": body}, event_queue=asyncio.Queue(), no_throttling=True,
+                # a consistency deadline that is over already (else: pre-proven consistency)
+                consistency_time=(asyncio.get_running_loop().time() - 1.0) if step.get("timed") else None)
+        except Exception as e:  # noqa: BLE001  (the filters of the standard streams never raise)
+            raised = e
+    if raised is not None or obs["patch"] is None or obs["causes"] is None:
+        rec.evaluations += 1
+        rec.oracle_fail(f"process_resource_event raised {type(raised).__name__}: {raised}", {"kind": "cycle", "case": case, "step": k},
+                        {"site": "processing.process_resource_event", "shape": f"raises {type(raised).__name__}"})
+        return own_fin
     patch = obs["patch"]
     fns = [getattr(f, "func", f).__name__ for f in patch.fns]
     patch_dict = json.loads(json.dumps(dict(patch), default=repr))
@@ -3662,12 +3891,21 @@ def fixed_sweeps(env: Env, rec: Rec, use_model: bool = True, full: bool = True, 
     eval_grid(env, rec, cross, std_changing_states(), "watching handler x changing cause", **kw)
     # extended field alphabet: null values, is-None/truthy callbacks, the private token, odd paths
     ext = ext_field_handlers("changing")
+    r_ = rng or random.Random(0)
+    if not full:      # quick tier: every declaration with at most one of value=/old=/new= + a seeded sample of the rest
+        one = lambda h: sum(h[k] is not None for k in ("v", "o", "n")) <= 1
+        ext = [h for h in ext if one(h)] + r_.sample([h for h in ext if not one(h)], 900)
     eval_grid(env, rec, ext, ext_field_states(), "extended field criteria", **kw)
     wst = [state("watching", body_extra={"spec": sp}) for sp in ({}, {"f": "x"}, {"f": None}, {"f": {"deep": 1}}, {"f": 1}, "scalar")]
     eval_grid(env, rec, ext_field_handlers("watching"), wst, "extended field criteria (watching)", **kw)
     # falsy-but-present values and criteria: '', 0, False, [], {} (complete product, both tiers)
     for what, fhs, fsts in falsy_cases():
+        if not full and len(fhs) > 1000:   # (the complete product is the thorough tier's; quick: as above, 1/3 of the rest)
+            fhs = [h for h in fhs if one(h)] + r_.sample([h for h in fhs if not one(h)], 600)
         eval_grid(env, rec, fhs, fsts, what, sample_every=39989, **kw)
+    # "the field actually changed" over bool/number twins (/repo 8d1358b), complete product, both tiers
+    for what, bhs, bsts, with_model in boolnum_cases():
+        eval_grid(env, rec, bhs, bsts, what, **(kw if with_model else dict(kw, use_model=False)))
     # extended metadata alphabet: two keys, empty strings, absent metadata
     mh, ms = ext_meta_cases()
     for cls in ("changing", "watching", "spawning"):
@@ -3709,6 +3947,8 @@ def run_case(env: Env, rec: Rec, data: dict, reqs: list, pending: list, drv: lea
         c = data["case"]
         c = dict(c, handlers=[tuple(x) for x in c["handlers"]])
         asyncio.run(run_cycle_case(env, rec, c, reqs, pending))
+    elif kind == "served":
+        run_served_case(env, rec, data["case"])
     elif kind == "shards":
         run_shards_case(env, rec, data["case"], REPO[0])
     elif kind == "stacked":
@@ -3784,12 +4024,14 @@ def run(ctx: Ctx) -> None:
     # ---- registries, dedup, cycles ---------------------------------------------------------------
     for case in kind_value_sweep():
         run_select_case(env, rec, case, reqs, pending)
-    for _ in range(ctx.budget(2300, 30000)):
+    for _ in range(ctx.budget(2000, 30000)):
         run_select_case(env, rec, random_select_case(rng), reqs, pending)
     for _ in range(ctx.budget(300, 3000)):
         keys = [[rng.randrange(3), rng.choice(["a", "b", "c"])] for _ in range(rng.randint(0, 8))]
         run_dedup_case(env, rec, keys, reqs, pending)
     run_selectors(env, rec, reqs, pending)
+    for case in served_cases():
+        run_served_case(env, rec, case)
     flush(rec, drv, reqs, pending)
     lap("registries/dedup/selectors")
 
@@ -3809,7 +4051,7 @@ def run(ctx: Ctx) -> None:
             await run_cycle_case(env, rec, random_leftover_sequence(rng), reqs, pending)
         for _ in range(ctx.budget(300, 4000)):
             await run_cycle_case(env, rec, random_subcycle_case(rng), reqs, pending)
-        for _ in range(ctx.budget(1700, 20000)):
+        for _ in range(ctx.budget(1500, 20000)):
             await run_cycle_case(env, rec, random_cycle_case(rng), reqs, pending)
         # consecutive events on the same in-memory records with kopf's REAL daemon spawning/stopping
         for _ in range(ctx.budget(40, 600)):
@@ -3844,7 +4086,7 @@ def search(ctx: Ctx, broken: list) -> None:
     rec = Rec()
     for b in broken:
         inp = (b.replay or {}).get("input") if isinstance(b.replay, dict) else None
-        if isinstance(inp, dict) and inp.get("kind") in ("pair", "select", "dedup", "cycle", "subselect", "stacked", "shards"):
+        if isinstance(inp, dict) and inp.get("kind") in ("pair", "select", "dedup", "cycle", "subselect", "stacked", "shards", "served"):
             try:
                 run_case(env, rec, inp, [], [], None, use_model=False)
             except Exception:
